@@ -13,16 +13,22 @@ from harness.common import ImplRaised, drv, impl, run_check
 PID = "C01"
 THEOREMS = ["pixels_roundtrip", "chunking_irrelevant", "created_offsOK", "matrix_roundtrip_square", "matrix_roundtrip_symm",
             "arrayLoader_spec", "sortByKey_strict", "createFromFrame_px", "clipInt_eq_iff", "checkedWrite_exact",
-            "checkedWrite_refuses_iff"]
+            "checkedWrite_refuses_iff", "unordered_eq_frame", "unordered_roundtrip", "specWindow_local", "specDense_local"]
 LEVELS = {"big_roundtrip": "top", "call_sequence": "top", "roundtrip": "top", "metadata": "top", "array_loader": "unit", "value_dtypes": "top"}
 DESCRIBE = {
     "roundtrip": "create_cooler(bins, pixels in some input form) then Cooler.pixels()[:] / matrix(balance=False)[:] (dense, sparse) / "
                  "info vs Lean `createStore` + `specWindow`/`specDense` over the full window (theorems pixels_roundtrip, "
-                 "matrix_roundtrip_symm/_square, createFromFrame_px, arrayLoader_spec)",
+                 "matrix_roundtrip_symm/_square, createFromFrame_px, arrayLoader_spec); form `unordered` = an iterable of chunks given "
+                 "without ordered=True (the default: external sort, one or two merge passes by max_merge, any mergebuf) vs Lean "
+                 "`createFromUnordered` = the key-sorted records (theorems unordered_eq_frame, unordered_roundtrip)",
     "metadata": "user metadata document and assembly name given at creation vs Cooler.info (identity)",
     "array_loader": "cooler.create.ArrayLoader(bins, A, chunksize) chunk stream vs Lean `arrayLoader` (= `triuNonzero`)",
     "big_roundtrip": "one creation with 1 051 975 pixels (n = 1450, three chunks): pixel table exact, matrix windows around record 10^6, "
-                     "on the last rows and elsewhere vs the symmetric completion (numpy transcription of specDense at this size)",
+                     "on the last rows and elsewhere vs the symmetric completion (numpy transcription of specDense at this size); kind "
+                     "`rows`: > 10^6 pixels laid out so that a row starts at record k*10^6 + shift (shift 0 = exactly on the literal "
+                     "block of the index builder), one frame or three ordered chunks, both storage modes: pixel table exact, "
+                     "pixels()[lo:hi] around the boundary exact, matrix windows (dense and sparse) around the boundary rows vs Lean "
+                     "`specDense`/`specWindow` on the records touching the window (theorems specWindow_local, specDense_local)",
     "call_sequence": "2-4 creations in one process over one bin table, each with its own dtype requests (int32 / float32 / none) for "
                      "the columns count and score: every file reads back as given to ITS call, values and dtypes (the model is a "
                      "function of the call's arguments: theorem pixels_roundtrip has no hidden state)",
@@ -34,7 +40,12 @@ DESCRIBE = {
 RULE = ("bin tables: 1-3 chromosomes, fixed width with short last bin, variable width, single-bin chromosomes (n<=6 quick / <=9 "
         "thorough); matrices: empty, diagonal, dense, random, asymmetric (square mode); input forms: DataFrame, dict, shuffled "
         "DataFrame, iterator over EVERY composition of nnz into chunks with empty chunks inserted (nnz<=5 exhaustive, sampled "
-        "beyond), ArrayLoader with every chunk size 1..n+1; count dtype int32/int64/float64; 0-2 extra value columns; h5opts in "
+        "beyond), iterator WITHOUT ordered=True (default ordered=False; `ordered` omitted or False): every chunk count 1..13 quick / "
+        "1..26 thorough x max_merge in {1, 2, count-1, count} x mergebuf in {default, 1, 2, 3, nnz}, random chunkings with empty "
+        "chunks, shuffled chunk order, every dtype/extra/h5opts choice, and one stream (4 thorough) of 201..260 chunks with all "
+        "options at their defaults; ArrayLoader with every chunk size 1..n+1; > 10^6-pixel creations: full upper triangle of "
+        "n = 1450, and rows of 500/1000/2000 records with a row starting exactly on record 10^6 (thorough: +-1, second block, a "
+        "row that is a whole block, one record per row); count dtype int32/int64/float64; 0-2 extra value columns; h5opts in "
         "{default, none, lzf, gzip9-noshuffle, chunks}; metadata documents from a JSON generator; non-trivial = nnz>=2")
 EXHAUSTIVE = {"quick": False, "thorough": False}
 TRUSTED = ["HDF5 filters (compression, shuffle, chunking) and dtype conversion on write are value-transparent primitives",
@@ -98,6 +109,20 @@ def _roundtrip(case):
             import random
             random.Random(case["seed"]).shuffle(inp)
         chunks_model = [drv().ask("C01.frame", pixels=inp)["sorted"]]
+    elif form == "unordered":
+        # an iterable of chunks given WITHOUT ordered=True (the default): external sort, one merge pass or two
+        cuts = case["cuts"]
+        given = [px[a:b] for a, b in zip([0] + cuts, cuts + [len(px)])]
+        if case.get("perm") is not None:
+            import random
+            random.Random(case["perm"]).shuffle(given)          # chunk ORDER is free on this path
+        mm = case.get("max_merge")
+        two = len(given) > (200 if mm is None else mm) > 0
+        u = drv().ask("C01.unordered", chunks=given, edges=[0, len(given) // 2, len(given)] if two else None)
+        assert u["edges_valid"] and u["stored"] == u["sorted"], "theorem unordered_eq_frame contradicted"
+        assert case.get("perm") is not None or u["stored"] == [list(p) for p in px], "theorem unordered_roundtrip contradicted"
+        chunks_given = given
+        chunks_model = [u["stored"]]
     else:
         cuts = case["cuts"]
         chunks_model = [px[a:b] for a, b in zip([0] + cuts, cuts + [len(px)])]
@@ -121,6 +146,19 @@ def _roundtrip(case):
             impl(cooler.create_cooler, path, bdf, pd.DataFrame(_frame(inp, dtype, extra_cols, scale)), **kw)
         elif form == "dict":
             impl(cooler.create_cooler, path, bdf, _frame(px, dtype, extra_cols, scale), **kw)
+        elif form == "unordered":
+            it = (pd.DataFrame(_frame(c, dtype, extra_cols, scale)) if k % 2 == 0 else _frame(c, dtype, extra_cols, scale)
+                  for k, c in enumerate(chunks_given))
+            ukw = {}
+            if case.get("ordered_kw"):
+                ukw["ordered"] = False                 # explicit; otherwise omitted (the same default)
+            for opt in ("max_merge", "mergebuf"):
+                if case.get(opt) is not None:
+                    ukw[opt] = case[opt]
+            impl(cooler.create_cooler, path, bdf, it, **ukw, **kw)
+            left = [f for f in os.listdir(os.path.dirname(path)) if f.endswith(".multi.cool")]
+            for f in left:
+                os.unlink(os.path.join(os.path.dirname(path), f))
         else:
             it = (pd.DataFrame(_frame(c, dtype, extra_cols, scale)) if k % 2 == 0 else _frame(c, dtype, extra_cols, scale)
                   for k, c in enumerate(chunks_model))
@@ -282,6 +320,8 @@ def _big_roundtrip(case):
     matrix query on the rows around record 1 000 000, on the last rows and on a spread of windows equals the symmetric
     completion.  Oracle here: a numpy transcription of `specDense` (the Lean definition itself is evaluated on the same
     family for n <= 9 in `roundtrip`; a million records do not go through the driver)."""
+    if case.get("kind") == "rows":
+        return _big_rows(case)
     n = case["n"]
     path = os.path.join(gen.tmpdir(), f"c01big-{os.getpid()}.cool")
     try:
@@ -309,6 +349,91 @@ def _big_roundtrip(case):
                 return {"mismatch": True, "what": "matrix window of a > 10^6-pixel cooler differs from the symmetric completion of the input",
                         "window": [i0, i1, j0, j1], "first_differing_cells": bad, "record_1e6_is_in_row": row_at}
         return {"stats": {"windows": len(wins)}}
+    finally:
+        if os.path.exists(path):
+            os.unlink(path)
+
+
+BLOCK = 1_000_000       # literal record block of cooler's pixel-index builder (create/_create.py index_pixels)
+
+
+def _rows_layout(case):
+    """`heavy` rows of `rowlen` records each (row r holds columns r .. r+len-1; row 0 holds `shift` more or fewer), so that
+    row `heavy` starts at record k*10^6 + shift; then five short rows and a last diagonal record."""
+    L, s, k = case["rowlen"], case.get("shift", 0), case.get("k", 1)
+    assert (k * BLOCK) % L == 0 and L + s >= 1
+    heavy = k * BLOCK // L
+    lens = np.full(heavy, L, dtype=np.int64)
+    lens[0] += s
+    n = heavy + L + max(s, 0) + 8
+    tail = [(heavy, [0, 1, 3]), (heavy + 1, [0]), (heavy + 2, [1, 2]), (heavy + 4, [0, 2, 3]), (n - 1, [0])]
+    starts = np.concatenate([[0], np.cumsum(lens)])
+    b1 = np.repeat(np.arange(heavy, dtype=np.int64), lens)
+    b2 = b1 + (np.arange(int(starts[-1]), dtype=np.int64) - starts[:-1][b1])
+    b1 = np.concatenate([b1] + [np.full(len(cs), r, dtype=np.int64) for r, cs in tail])
+    b2 = np.concatenate([b2] + [np.array([r + c for c in cs], dtype=np.int64) for r, cs in tail])
+    cnt = ((b1 * 7 + b2 * 13) % 5 + 1).astype(np.int32)
+    return n, heavy, b1, b2, cnt
+
+
+def _big_rows(case):
+    """> 10^6 records with a row boundary placed at a chosen distance from the k-th literal 10^6-record block of the index
+    builder.  Pixel table: exact; pixels()[lo:hi] around the boundary: exact; matrix windows around the boundary rows (dense
+    and sparse, also the transposed window): Lean `specDense` / `specWindow` evaluated on the input records that touch the
+    window (theorems specWindow_local, specDense_local: that is the window of the whole input)."""
+    symm = case["symm"]
+    n, heavy, b1, b2, cnt = _rows_layout(case)
+    nnz = len(b1)
+    at = case.get("k", 1) * BLOCK + case.get("shift", 0)
+    assert nnz > BLOCK and int(b1[at]) == heavy and int(b1[at - 1]) == heavy - 1
+    # two chromosomes of width-10 bins, each with a short last bin (built in numpy: the table may have 10^6 rows)
+    sizes = [n // 3, n - n // 3]
+    start = np.concatenate([np.arange(k, dtype=np.int64) * 10 for k in sizes])
+    end = start + 10
+    end[np.cumsum(sizes) - 1] -= 3
+    bdf = pd.DataFrame({"chrom": np.repeat([gen.chromname(c) for c in range(2)], sizes), "start": start, "end": end})
+    path = os.path.join(gen.tmpdir(), f"c01rows-{os.getpid()}.cool")
+    try:
+        if case["form"] == "chunks":
+            cuts = [0, nnz // 3, at - 1, nnz] if case.get("cut_before") else [0, nnz // 3, 2 * nnz // 3 + 1, nnz]
+            data = ({"bin1_id": b1[a:b], "bin2_id": b2[a:b], "count": cnt[a:b]} for a, b in zip(cuts, cuts[1:]))
+            impl(cooler.create_cooler, path, bdf, data, ordered=True, symmetric_upper=symm)
+        else:
+            impl(cooler.create_cooler, path, bdf, pd.DataFrame({"bin1_id": b1, "bin2_id": b2, "count": cnt}), symmetric_upper=symm)
+        clr = cooler.Cooler(path)
+        t = impl(lambda: clr.pixels()[:])
+        if len(t) != nnz or not (np.array_equal(t["bin1_id"].values, b1) and np.array_equal(t["bin2_id"].values, b2)
+                                 and np.array_equal(t["count"].values, cnt)):
+            return {"mismatch": True, "what": "pixel table of a > 10^6-pixel cooler differs from the input", "nnz": int(len(t))}
+        for lo, hi in [(at - 3, at + 3), (at, at + 2), (at - 1, at), (nnz - 4, nnz), (BLOCK - 2, BLOCK + 2)]:
+            sub = impl(lambda: clr.pixels()[lo:hi])
+            g = [[int(a), int(b), int(c)] for a, b, c in zip(sub["bin1_id"], sub["bin2_id"], sub["count"])]
+            want = [[int(a), int(b), int(c)] for a, b, c in zip(b1[lo:hi], b2[lo:hi], cnt[lo:hi])]
+            if g != want:
+                return {"mismatch": True, "what": f"pixels()[{lo}:{hi}]", "impl": g, "model": want}
+        h = heavy
+        boxes = [[h - 2, h + 3, h - 2, h + 8], [h - 2, h + 8, h - 2, h + 3], [h - 1, h + 1, h - 1, h + 1], [h, h + 5, h, h + 9],
+                 [0, 3, 0, 4], [n - 4, n, n - 6, n], [h - 3, h, h + 2, h + 6]]
+        boxes = [[max(0, a), min(n, b), max(0, c), min(n, d)] for a, b, c, d in boxes]
+        for box in boxes:
+            i0, i1, j0, j1 = box
+            direct = (b1 >= i0) & (b1 < i1) & (b2 >= j0) & (b2 < j1)
+            mirror = (b2 >= i0) & (b2 < i1) & (b1 >= j0) & (b1 < j1)
+            sel = np.nonzero(direct | mirror)[0]
+            # ... plus bystanders that do not touch the window (they must not matter)
+            sel = np.union1d(sel, np.array([0, at - 1, at, nnz - 1]))
+            recs = [[int(b1[q]), int(b2[q]), int(cnt[q])] for q in sel]
+            w = drv().ask("C01.window", pixels=recs, symm=symm, boxes=[box])[0]
+            got = np.asarray(impl(lambda: clr.matrix(balance=False)[i0:i1, j0:j1]))
+            if got.shape != (i1 - i0, j1 - j0) or got.astype(np.int64).tolist() != w["dense"]:
+                return {"mismatch": True, "what": "matrix window (dense) of a > 10^6-pixel cooler differs from the full-matrix view of the input",
+                        "window": box, "impl": got.astype(np.int64).tolist(), "model": w["dense"], "row_starting_at_record": [h, at]}
+            sp = impl(lambda: clr.matrix(balance=False, sparse=True)[i0:i1, j0:j1])
+            ent = sorted([int(r) + i0, int(c) + j0, int(v)] for r, c, v in zip(sp.row, sp.col, sp.data))
+            if ent != sorted(w["spec"]):
+                return {"mismatch": True, "what": "matrix window (sparse) of a > 10^6-pixel cooler differs from the full-matrix view of the input",
+                        "window": box, "impl": ent, "model": sorted(w["spec"]), "row_starting_at_record": [h, at]}
+        return {"stats": {"windows": len(boxes)}}
     finally:
         if os.path.exists(path):
             os.unlink(path)
@@ -358,6 +483,10 @@ def distribution(name, case):
         yield "all_fit" if all(lo <= v <= hi for v in case["values"]) else "some_value_out_of_range"
     if name == "roundtrip":
         yield f"form={case['form']}"
+        if case["form"] == "unordered":
+            nch, mm = len(case["cuts"]) + 1, case.get("max_merge")
+            yield "unordered.two_merge_passes" if nch > (200 if mm is None else mm) else "unordered.one_merge_pass"
+            yield "unordered.max_merge=default" if mm is None else "unordered.max_merge=given"
         yield f"dtype={case['dtype']}"
         yield f"h5opts={case['h5opts']}"
 
@@ -412,11 +541,39 @@ def _json_doc(rng, depth=0):
     return {rng.choice(["a", "b", "key 1", "ü", "nested", "0"]) + str(k): _json_doc(rng, depth + 1) for k in range(rng.randint(0, 3))}
 
 
+def _heavy_cases(thorough, rng):
+    """the few cases that take seconds (yielded first so that they do not form the tail of the run)"""
+    yield "big_roundtrip", {"n": 1450}
+    # > 10^6 records with a row boundary AT the literal 10^6-record block of the index builder (quick: one; thorough: also one
+    # record before / after it, a row that is a whole block, the second block boundary)
+    yield "big_roundtrip", {"kind": "rows", "rowlen": rng.choice([500, 1000, 2000]), "shift": 0, "k": 1, "symm": rng.random() < 0.7,
+                            "form": rng.choice(["frame", "chunks"]), "cut_before": rng.random() < 0.5}
+    if thorough:
+        for shift, k, rowlen in [(1, 1, 1000), (-1, 1, 1000), (0, 2, 1000), (0, 1, BLOCK), (rng.randint(2, 900), 1, 2000), (0, 1, 1)]:
+            yield "big_roundtrip", {"kind": "rows", "rowlen": rowlen, "shift": shift, "k": k, "symm": rng.random() < 0.7,
+                                    "form": rng.choice(["frame", "chunks"]), "cut_before": rng.random() < 0.5}
+    # an iterable of chunks with EVERY option left at its default (ordered omitted, max_merge 200, mergebuf 20e6): more chunks
+    # than the default max_merge, so the external sort takes two merge passes
+    for _ in range(4 if thorough else 1):
+        n = rng.randint(22, 26)
+        bins = _table(rng, n)
+        n = len(bins)
+        px = gen.matrix_kinds(rng, n, True, "dense-random")
+        nch = rng.randint(201, 260)
+        yield "roundtrip", {"bins": bins, "pixels": px, "symm": True, "form": "unordered", "dtype": "int32",
+                            "cuts": sorted(rng.randint(0, len(px)) for _ in range(nch - 1)), "extra": rng.choice([[], ["w"]]),
+                            "h5opts": "default", "seed": 0, "max_merge": None, "mergebuf": None, "ordered_kw": False}
+
+
 def cases(tier, rng):
     thorough = tier == "thorough"
-    # corpus: D16 witnesses and a plain name
-    for a in ["hg19", "123", "null", "true", "1e5", "mm10.v2", "[1]", "unknown", '"q"']:
+    # corpus: D16 witnesses and a plain name (interleaved with the heavy cases: a pool task is CHUNK = 2 consecutive cases)
+    heavy = list(_heavy_cases(thorough, rng))
+    for k, a in enumerate(["hg19", "123", "null", "true", "1e5", "mm10.v2", "[1]", "unknown", '"q"']):
+        if k < len(heavy):
+            yield heavy[k]
         yield "metadata", {"metadata": {"a": 1}, "assembly": a}
+    yield from heavy[9:]
     # witnesses of seeded change C01-1 (large integers must come back as integers)
     yield "metadata", {"metadata": {"n": 2 ** 53, "deep": [{"m": -(2 ** 63)}], "s": "9007199254740993"}, "assembly": "hg19"}
     nmax = 9 if thorough else 6
@@ -457,7 +614,38 @@ def cases(tier, rng):
             doc = {"k": None}
         yield "metadata", {"metadata": doc,
                            "assembly": rng.choice(["hg38", "dm6", "T2T-CHM13v2.0", "GRCh38.p13", "my assembly", "ü"])}
-    yield "big_roundtrip", {"n": 1450}
+    # iterable of chunks given WITHOUT ordered=True (default ordered=False: external sort).  Every chunk count 1..K against
+    # max_merge below / just below / at the count (two merge passes, one pass), merge buffers of a few records
+    kmax = 26 if thorough else 13
+    for symm in (True, False):
+        n = 7 if symm else 5
+        bins = _table(rng, n)
+        n = len(bins)
+        px = gen.matrix_kinds(rng, n, symm, "full" if symm else "dense-random")
+        for nch in range(1, kmax + 1):
+            if (nch % 2 == 0) != symm and nch > 3 and not thorough:
+                continue
+            for mm in sorted({1, 2, max(1, nch - 1), nch}):
+                cuts = sorted(rng.sample(range(1, len(px)), nch - 1)) if nch - 1 <= len(px) - 1 else \
+                    sorted(rng.randint(0, len(px)) for _ in range(nch - 1))
+                yield "roundtrip", {"bins": bins, "pixels": px, "symm": symm, "form": "unordered", "cuts": cuts, "dtype": "int32",
+                                    "extra": [], "h5opts": "default", "seed": 0, "max_merge": mm,
+                                    "mergebuf": rng.choice([None, 1, 2, 3, len(px)]), "ordered_kw": rng.random() < 0.3}
+    for k in range(120 if thorough else 30):
+        n = rng.randint(2, nmax)
+        symm = rng.random() < 0.65
+        bins = _table(rng, n)
+        n = len(bins)
+        px = gen.matrix_kinds(rng, n, symm)
+        nch = rng.randint(1, 12)
+        c = {"bins": bins, "pixels": px, "symm": symm, "form": "unordered", "dtype": rng.choice(["int32", "int32", "int64", "float64"]),
+             "cuts": sorted(rng.randint(0, len(px)) for _ in range(nch - 1)),            # empty chunks included
+             "extra": rng.choice([[], [], ["w"], ["w", "k"]]), "h5opts": rng.choice(list(H5OPTS)), "seed": rng.randrange(10 ** 6),
+             "max_merge": rng.choice([None, 1, 2, 3, 4, max(1, nch - 1), nch, nch + 1]),
+             "mergebuf": rng.choice([None, None, 1, 2, 3, max(1, len(px)), len(px) + 1]), "ordered_kw": rng.random() < 0.3}
+        if k % 4 == 3:
+            c["perm"] = rng.randrange(10 ** 6)
+        yield "roundtrip", c
     # sequences of creations in one process (state must not leak from call to call)
     yield "call_sequence", {"n": 4, "calls": [{"pixels": [[0, 1, 2], [1, 3, 5]], "score_dtype": "int32", "count_dtype": None},
                                               {"pixels": [[0, 0, 1], [2, 3, 4]], "score_dtype": None, "count_dtype": None}]}
